@@ -156,3 +156,52 @@ merge_harness!(c05_merge_cond_then_cond, 7, 7);
 merge_harness!(c05_merge_uncond_then_uncond, 5, 5);
 merge_harness!(c05_merge_nothing_then_cond, 0, 7);
 merge_harness!(c05_merge_cond_then_nothing, 7, 0);
+
+// ------------------------------------------------------------------------------------------------
+// Use-time guards of header filters: a filter contributes (and its rule is reported as applied)
+// iff its rule's response-status condition admits the response code.
+use redirectionio::api::HeaderFilter;
+use redirectionio::http::Header;
+
+fn hf(name: u8, value: u8) -> HeaderFilter {
+    HeaderFilter { action: String::from("add"), header: s1(name), value: s1(value), id: None, target_hash: None }
+}
+
+/// filter 0 (rule "p"): unconditional; filter 1 (rule "q"): one listed code, include/exclude symbolic
+#[kani::proof]
+#[kani::unwind(6)]
+#[kani::stub(str::to_lowercase, ascii_lowercase_model)]
+fn c05_header_filter_guards() {
+    let code: u16 = kani::any();
+    let exclude: bool = kani::any();
+    let c: u16 = kani::any();
+    let mut a = Action::verif_from_parts(
+        None,
+        None,
+        vec![(hf(b'a', b'1'), Vec::new(), false, Some(s1(b'p'))), (hf(b'b', b'2'), vec![code], exclude, Some(s1(b'q')))],
+        vec![(s1(b'p'), Vec::new(), false), (s1(b'q'), vec![code], exclude)],
+    );
+    let out = a.filter_headers(Vec::new(), c, false, None);
+    let q_admitted = (code == c) != exclude;
+    assert!(out.len() == if q_admitted { 2 } else { 1 });
+    assert!(out[0].name.as_bytes()[0] == b'a' && out[0].value.as_bytes()[0] == b'1');
+    if q_admitted {
+        assert!(out[1].name.as_bytes()[0] == b'b' && out[1].value.as_bytes()[0] == b'2');
+    }
+    let mut p_applied = false;
+    let mut q_applied = false;
+    for id in a.get_applied_rule_ids().iter() {
+        if id.as_bytes()[0] == b'p' {
+            p_applied = true;
+        }
+        if id.as_bytes()[0] == b'q' {
+            q_applied = true;
+        }
+    }
+    assert!(p_applied);
+    assert!(q_applied == q_admitted);
+    kani::cover!(q_admitted && exclude);
+    kani::cover!(!q_admitted && !exclude);
+    std::mem::forget(out);
+    std::mem::forget(a);
+}
